@@ -13,8 +13,11 @@ MANIFEST = {
              'every limit >= 0 with 0 = unlimited): C14_ffill_axis1_any_layout / C14_ffill_row_any_partition -- the block-wise axis-1 forward fill '
              'of TypeBlocks._fillna_directional_axis_1 (bridging_values / bridging_count / bridging_isna carried across blocks, whole-block fast '
              'path, limit trimming) equals the two-line per-row specification S_ffill for EVERY block layout, by induction over the block list with '
-             'the invariant "bridging state = S_ffill carry at the block boundary"; C14_bfill_axis1_any_layout_guarded (+ _nolimit) -- the same for the '
-             'backward walk under the explicit guard frame_bwd_dom; unguarded it is FALSE of the code (Refuted/C14.v, finding C14-bfill-axis1-bridge-count); '
+             'the invariant "bridging state = S_ffill carry at the block boundary"; C14_bfill_axis1_any_layout_guarded (+ _nolimit, + _repaired) -- the same for the '
+             'backward walk, for BOTH values of the decision "which yielded slice gives the bridging count" that tools/sfv/props/c14.py:generate extracts from the source '
+             'on every run (Gen/Gen_c14.v): unguarded for the repaired decision, under the explicit guard frame_bwd_dom for the pinned one, where unguarded it is FALSE of '
+             'the code (Refuted/C14.v, finding C14-bfill-axis1-bridge-count); C14_dropna_keep_refines -- the keep mask of dropna_to_keep_locations = the lines S keeps '
+             '(guarded for the single-1-D-block frame on axis 1: Refuted/C14.v, finding C14-dropna-axis1-single-1d-block); '
              'C14_dir1d_forward / _backward -- binary_transition + slices_from_targets + slice assignment (Series, axis 0) equal S_ffill / S_bfill; '
              'C14_sided_axis1_any_layout, C14_sided1d -- leading/trailing fills (isna_exit_previous across blocks, reversed walk) equal S_leading / S_trailing; '
              'C14_ffill_exact, C14_bfill_exact, C14_decomposition, C14_leading_exact -- S copies exactly the nearest preceding (following) present value into exactly '
@@ -29,7 +32,7 @@ MANIFEST = {
              '(no missing cell in ANY row) is modelled by a per-block flag computed from all rows. Partial: dropna, fillna(labelled container), count, notna have '
              'specification-level checks (impl vs S on every case) and theorems about S, but no separate implementation model; dtype of the result is not compared; '
              'datetime64 units other than D, 0-row / 0-column frames, tuple cells, negative limits and hierarchical labels are outside the checked domain. '
-             'Known findings (2): backward axis-1 fill with limit across a 2-D block; Frame.dropna(axis=1) on a single 1-D block.'),
+             'Known findings (3): backward axis-1 fill with limit across a 2-D block; Frame.dropna(axis=1) on a single 1-D block; datetime64[ns] cells turned into ints by fills that coerce to object.'),
     'technique': 'refinement proof M = S by induction over the block list (invariant: bridging state = carry of S); kernel proofs over run/group decomposition; differential correspondence',
 }
 PROPERTY_FILES = ['Properties/C14.v']
@@ -40,7 +43,7 @@ IMPORTS = 'Require Import SF.Prelude SF.Value SF.Dtype SF.Missing SF.MissingChec
 RULE = ('kernel strata: util.binary_transition on EVERY Boolean vector of length <= 8 (quick) / 11 (thorough) and per line of every 2-D Boolean array of the listed shapes; '
         'util.slices_from_targets on every Boolean vector of length <= 6 / 9 x direction x limit 0..3, all called directly. '
         'api strata, exhaustive: Series (float / object-None / object-NaN / datetime64[D]) every missing pattern of length <= 5 / 7 x every operation x limit 0..n; '
-        'Frames 1 x n float columns (n <= 4 quick, <= 5 thorough, 1 x 6 with limit 2) every pattern x EVERY block layout (zoo.layouts_for) x limit 0..n x forward/backward on axis 1; '
+        'Frames 1 x n float columns (n <= 4 quick, <= 5 thorough, 1 x 6 with limit 2) every pattern x EVERY block layout (zoo.layouts_for) x limit 0..min(n,3) (thorough 0..n) x forward/backward on axis 1; '
         '2 x 3 (thorough also 2 x 4, 3 x 3) every pattern x every layout x limits x directions x both axes + leading/trailing; mixed frames (float/object/datetime between int/bool/str '
         'columns) every pattern x every layout x all operations; 2 x 2 x label sub/supersets for fillna(Frame); 3 cells x label subsets for fillna(Series). '
         'Then a seeded sample of 1 x 5 (quick) and a seeded random stream of frames up to 4 x 8 with random kinds/layout/limit, and 8 malformed calls. '
